@@ -131,6 +131,13 @@ class C22(EngineACheck):
                 if lost:
                     out.violate("C22.references_after_recovery", f"subtree-rows:{lost[0][0]}@{site}",
                                 {"k": k, "violations": lost[:5]})
+                    continue
+                if not use_edited:
+                    # ... and every container value is linked to its subvalues again
+                    sv = histsim.subvalue_link_violations(db)
+                    if sv:
+                        out.violate("C22.references_after_recovery", f"{sv[0][0]}@{site}",
+                                    {"k": k, "violations": sv[:5]})
 
             # ---- crash inside value-store writes (the backend's other durable store) ----
             if ch.coin(0.5, "value-store-part"):
